@@ -32,7 +32,7 @@ func init() { register("C08", checkC08) }
 func checkC08(p *Prog, r *Report) {
 	r.NotCov = append(r.NotCov,
 		"backend prepared-statement state and LRU eviction of the proxy's cache",
-		"version/compression of the cached PREPARE frame versus the session it is replayed on")
+		"whether the backend assigns the same id to the re-prepared statement (keyspace-dependent ids): the proxy then moves on to the next host (C01.bounded-resend)")
 	c08Wiring(p, r)
 	c08CacheBeforeDeliver(p, r)
 	c08Keys(p, r)
